@@ -907,3 +907,73 @@ Definition htfc_check2 (S : list str) (d : htfc) : bool :=
   (h_buckets d =? (lenN S + b - 1) / b) && (h_k d =? 16) && (h_maxlength d <? 2 ^ 29) &&
   code_chk (h_cw d) && forallb (fun x => x <? 256) (h_text d) &&
   hchain_from d b 0 [] (fst st0_dummy) [] S.
+
+(* ---------------------------------------------------------------------- *)
+(* the layout the constructor defines (executable specification, no theorem depends on it) *)
+(* ---------------------------------------------------------------------- *)
+(* textStrings / blStrings as StringDictionaryHTFC(it, bucketsize) writes them, computed from S, the bucket size
+   and the code table: every bucket = encodeSymbol over header ++ NUL from offset 0, padded to the byte
+   (`if (offset > 0) bytes++`), then ONE continuous bit stream over the internal strings VByte(lcp) ++ suffix ++ NUL,
+   padded to the byte at the end of a full bucket; the final `bytesStrings++` adds a 0 byte unless the last bucket
+   is not full, has internal strings and ends inside a byte.  [htfc_layout_chk] compares this with the dumped
+   object (printed as ok3= by the harness: a tie of the CONSTRUCTOR to this specification). *)
+Fixpoint bucket_items (prev : str) (ss : list str) : list N :=
+  match ss with
+  | [] => []
+  | s :: r => vb_encode (lcp prev s) ++ skipN (lcp prev s) s ++ [0] ++ bucket_items s r
+  end.
+
+(* (bytes of the bucket, the final `bytesStrings++` still has to add a 0 byte) *)
+Definition bucket_bytes (cws : list cw) (b : nat) (ss : list str) : option (list N * bool) :=
+  match ss with
+  | [] => None
+  | h :: r =>
+      match pack_string cws (h ++ [0]) with
+      | None => None
+      | Some (hb, _) =>
+          match r with
+          | [] => Some (hb, true)
+          | _ =>
+              match pack_symbols cws (bucket_items h r) ([], 0, 0) with
+              | None => None
+              | Some st =>
+                  Some (hb ++ final_bytes st, (Nat.eqb (length ss) b) || (snd st =? 0))
+              end
+          end
+      end
+  end.
+
+Fixpoint layout_buckets (cws : list cw) (b : nat) (off : N) (bs : list (list str)) : option (list N * list N * bool) :=
+  match bs with
+  | [] => Some ([], [], true)
+  | ss :: r =>
+      match bucket_bytes cws b ss with
+      | None => None
+      | Some (bytes, extra) =>
+          match layout_buckets cws b (off + lenN bytes) r with
+          | None => None
+          | Some (text, offs, extra') =>
+              Some (bytes ++ text, off :: offs, match r with [] => extra | _ => extra' end)
+          end
+      end
+  end.
+
+Fixpoint hchunks (fuel : nat) (b : nat) (S : list str) : list (list str) :=
+  match fuel with
+  | O => []
+  | Datatypes.S f => match S with [] => [] | _ => firstn b S :: hchunks f b (skipn b S) end
+  end.
+
+Definition htfc_layout (cws : list cw) (b : N) (S : list str) : option (list N * list N) :=
+  match layout_buckets cws (N.to_nat b) 0 (hchunks (length S) (N.to_nat b) S) with
+  | None => None
+  | Some (text, offs, extra) =>
+      let text' := if extra then text ++ [0] else text in
+      Some (text', 0 :: offs ++ [lenN text'])
+  end.
+
+Definition htfc_layout_chk (S : list str) (d : htfc) : bool :=
+  match htfc_layout (h_cw d) (h_bsize d) S with
+  | Some (text, bl) => hlist_eqb text (h_text d) && hlist_eqb bl (h_bl d)
+  | None => false
+  end.
